@@ -455,4 +455,28 @@ def recvBodyLen (extNegotiated : Bool) (hdr : Bytes) : Option Nat :=
     else if len > maxLen ⟨false, false, false, extNegotiated⟩ (hdr.getD 18 0) then none
     else some (len - 19)
 
+/-! ## D. the receive-path bound across sessions: `fsm.extendedMessage` is per session -/
+
+/-- does the OPEN carry capability `code` in any capability parameter (fsm.go `open2Cap`: capMap[code] present) -/
+def openHasCap (code : Nat) (o : Open) : Bool :=
+  o.params.any fun p =>
+    match p with
+    | .caps _ _ cs => cs.any fun c => c.code == code
+    | .unknown _ _ _ => false
+
+/-- what `fsm.stateChange(BGP_FSM_ESTABLISHED)` stores in `fsm.extendedMessage` for the session being
+    established: gobgp always advertises the Extended Message capability (capabilitiesFromConfig), so the
+    negotiation result is whether the PEER's OPEN of THIS session carries capability 6 — nothing else of the
+    OPEN (4-octet AS, graceful restart, …) and nothing of earlier sessions enters. -/
+def sessionExt (peerOpen : Open) : Bool := openHasCap 6 peerOpen
+
+/-- the flag after a history of sessions on one fsm, oldest first: every ESTABLISHED overwrites it -/
+def extAfter : Bool → List Open → Bool
+  | f, [] => f
+  | _, o :: rest => extAfter (sessionExt o) rest
+
+/-- `recvMessageWithError` in the session established last, after the sessions `hist` before it -/
+def recvBodyLenSess (init : Bool) (hist : List Open) (cur : Open) (hdr : Bytes) : Option Nat :=
+  recvBodyLen (extAfter init (hist ++ [cur])) hdr
+
 end PTot
